@@ -68,10 +68,15 @@ def template(t, n):
         return [raw([a], [b]), raw([b], [c]), raw([c], [d]), raw([d])]
     if t == 13:
         return [raw([a], [b]), Sum(raw([b, c]), fs([c])), raw([c], [d]), raw([a], [d])]
+    y, z = Variable("Y"), Variable("Z")
+    if t == 14:  # factors that differ only in a two-element subscript set of the child
+        return [raw([y.intervene([a, d])], [z]), raw([y.intervene([b, c])], [z])]
+    if t == 15:  # the same for unconditioned factors and for a parent; one single-subscript factor
+        return [raw([y.intervene([a, d])]), raw([y.intervene([b, c])]), raw([z], [y.intervene([d, a])])]
     raise ValueError(t)
 
 
-N_TEMPLATES = 14
+N_TEMPLATES = 16
 PERMS4 = list(itt.permutations(range(4)))
 
 
@@ -108,12 +113,13 @@ def flip(e):
 
 
 def ordering(o, n):
-    return [V(n[i]) for i in ORDERINGS[o]]
+    # Y and Z (used by templates 14 and 15) are always covered; an ordering may cover more than the expression needs
+    return [V(n[i]) for i in ORDERINGS[o]] + [Variable("Y"), Variable("Z")]
 
 
 def idempotent(t: int, m: int, o: int) -> bool:
     """
-    pre: 0 <= t < 14 and 0 <= m < 24 and 0 <= o < 3
+    pre: 0 <= t < 16 and 0 <= m < 24 and 0 <= o < 3
     post: __return__
     """
     n = NAME_PERMS[m]
@@ -126,7 +132,7 @@ def idempotent(t: int, m: int, o: int) -> bool:
 
 def presentation_invariant(t: int, m: int, o: int, p: int, nest: int, rev: int) -> bool:
     """
-    pre: 0 <= t < 14 and 0 <= m < 24 and 0 <= o < 3 and 0 <= p < 6 and 0 <= nest < 3 and 0 <= rev < 2
+    pre: 0 <= t < 16 and 0 <= m < 24 and 0 <= o < 3 and 0 <= p < 6 and 0 <= nest < 3 and 0 <= rev < 2
     post: __return__
     """
     n = NAME_PERMS[m]
@@ -139,7 +145,7 @@ def presentation_invariant(t: int, m: int, o: int, p: int, nest: int, rev: int) 
 
 def keys_total(t: int, u: int, m: int) -> bool:
     """
-    pre: 0 <= t < 14 and 0 <= u < 14 and 0 <= m < 24
+    pre: 0 <= t < 16 and 0 <= u < 16 and 0 <= m < 24
     post: __return__
     """
     n = NAME_PERMS[m]
@@ -155,8 +161,44 @@ def keys_total(t: int, u: int, m: int) -> bool:
 
 def reach_twin(t: int, m: int) -> bool:
     """
-    pre: 0 <= t < 14 and 0 <= m < 24
+    pre: 0 <= t < 16 and 0 <= m < 24
     post: __return__
     """
     n = NAME_PERMS[m]
     return len(template(t, n)) < 0  # must be refuted: shows the harness reaches its post-condition
+
+
+def skeleton(e):
+    """A rendering of an expression that keeps every order the canonical form fixes (factors, children, parents)
+    and sorts what is a set in the object (subscripts, sum ranges): equal objects give equal skeletons under
+    every hash seed."""
+    from y0.dsl import CounterfactualVariable, PopulationProbability
+
+    def var(v):
+        subs = sorted((i.name, i.star) for i in v.interventions) if isinstance(v, CounterfactualVariable) else []
+        return [v.name, v.star, subs]
+
+    if isinstance(e, Probability):
+        pop = e.population.name if isinstance(e, PopulationProbability) else None
+        return ["P", pop, [var(v) for v in e.children], [var(v) for v in e.parents]]
+    if isinstance(e, Product):
+        return ["*", [skeleton(f) for f in e.expressions]]
+    if isinstance(e, Sum):
+        return ["Sum", sorted(var(v) for v in e.ranges), skeleton(e.expression)]
+    if isinstance(e, Fraction):
+        return ["/", skeleton(e.numerator), skeleton(e.denominator)]
+    return [type(e).__name__]
+
+
+def canonical_skeletons(m_max=4, o_max=2):
+    """Canonical forms of every template under the first name assignments / orderings / two presentations, as
+    skeletons: compared across PYTHONHASHSEED values by the check (the forms must not depend on the seed)."""
+    out = []
+    for t in range(N_TEMPLATES):
+        for m in range(m_max):
+            n = NAME_PERMS[m]
+            for o in range(o_max):
+                od = ordering(o, n)
+                for p, nest, rev in ((0, 0, 0), (1, 1, 1)):
+                    out.append([t, m, o, p, nest, rev, skeleton(canonicalize(present(template(t, n), p, nest, rev), od))])
+    return out
